@@ -39,7 +39,7 @@ func verifyFunc(reg *Registry, pkgRel, key string, closureOrd int) (rep FuncRepo
 		rep.Error = "contract-detached:no-contract"
 		return
 	}
-	fc := &fctx{reg: reg, name: name, contract: c, paramVals: map[string]*Value{}, ghostCalls: map[string]int{}}
+	fc := &fctx{reg: reg, name: name, contract: c, paramVals: map[string]*Value{}, ghostCalls: map[string]int{}, capturedEntry: map[string]*Value{}}
 	defer func() {
 		if r := recover(); r != nil {
 			if os.Getenv("GOVC_DEBUG") != "" {
@@ -125,6 +125,30 @@ func verifyFunc(reg *Registry, pkgRel, key string, closureOrd int) (rep FuncRepo
 			}
 		}
 		inner.bindParams(st, nil, lit.Type, lsig, nil, largs)
+		// captured locals of the enclosing function: arbitrary values at the time the literal runs
+		ast.Inspect(lit.Body, func(n ast.Node) bool {
+			id, ok := n.(*ast.Ident)
+			if !ok {
+				return true
+			}
+			v, ok := pkg.TypesInfo.Uses[id].(*types.Var)
+			if !ok || v.IsField() || v.Pkg() == nil || v.Pkg().Scope().Lookup(v.Name()) == v {
+				return true
+			}
+			if _, bound := st.vars[v]; bound {
+				return true
+			}
+			if v.Pos() >= lit.Pos() && v.Pos() <= lit.End() {
+				return true // declared inside the literal
+			}
+			if v.Pos() < decl.Pos() || v.Pos() > decl.End() {
+				return true
+			}
+			cv := freshInput(st, v.Type(), "cap:"+v.Name())
+			st.vars[v] = cv
+			fc.capturedEntry[v.Name()] = cv
+			return true
+		})
 		fc.root, fc.contract, fc.resNames = inner, cc, cc.Results
 		fr, c, sig, body = inner, cc, lsig, lit.Body
 	}
@@ -134,6 +158,11 @@ func verifyFunc(reg *Registry, pkgRel, key string, closureOrd int) (rep FuncRepo
 	for _, cl := range c.Clauses {
 		if cl.Kind == "requires" {
 			st.assume(env.evalBool(cl.Expr))
+		}
+		if cl.Kind == "assume" {
+			// an axiom stated in the contract (never checked; listed among the assumptions)
+			st.assume(env.evalBool(cl.Expr))
+			reg.assumptions["axiom assumed in "+name+": "+nonEmpty(cl.Name, cl.Text)] = true
 		}
 	}
 	// modifies clause, evaluated at entry
